@@ -798,6 +798,17 @@ func runCase(c *Case) *Result {
 	if firedA {
 		res.Counts = append(res.Counts, "fault-fired")
 	}
+	evs := " " + strings.Join(events, " ") + " "
+	if strings.Contains(evs, ":s ") && strings.Contains(evs, " push:") {
+		res.Counts = append(res.Counts, "late-push-failure-fired")
+	}
+	if strings.Contains(evs, ":t ") {
+		res.Counts = append(res.Counts, "exists-true-answered")
+	}
+	if strings.Contains(evs, ":ok ") && strings.Contains(evs, ":0 ") {
+		// some TryCommit lost (try:<tid>:0) and some wait on a done channel succeeded
+		res.Counts = append(res.Counts, "shared-node-awaited")
+	}
 	res.Nontrivial = len(events) > 6
 	res.Canon = res.Model[strings.Index(res.Model, " G ")+1:]
 	return res
@@ -1024,7 +1035,32 @@ func main() {
 		js, _ := json.Marshal(c)
 		replay := map[string]string{"case": string(js)}
 		w.stdin.Write(append(js, '\n'))
-		line, err := w.stdout.ReadBytes('\n')
+		// supervisor watchdog: the worker bounds each of its two runs by `watchdog`; if it does not
+		// answer at all (wedged outside the guarded calls) it is killed and the case reported
+		type rd struct {
+			line []byte
+			err  error
+		}
+		ch := make(chan rd, 1)
+		go func(wp *workerProc) {
+			l, e := wp.stdout.ReadBytes('\n')
+			ch <- rd{l, e}
+		}(w)
+		var line []byte
+		var err error
+		wedged := false
+		select {
+		case r := <-ch:
+			line, err = r.line, r.err
+		case <-time.After(3*watchdog + 30*time.Second):
+			wedged = true
+			w.cmd.Process.Kill()
+			r := <-ch
+			line, err = nil, r.err
+			if err == nil {
+				err = errors.New("worker wedged")
+			}
+		}
 		var res Result
 		if err != nil || json.Unmarshal(line, &res) != nil {
 			w.stdin.Close()
@@ -1036,6 +1072,10 @@ func main() {
 			sig := "crash"
 			if strings.Contains(msg, "semaphore: released more than held") {
 				sig = "double-release"
+			}
+			if wedged {
+				sig = "wedge"
+				hangs++
 			}
 			run.Case(id, "CRASH", "CRASH")
 			run.OracleFail(id, sig, "the worker process died while running this case: "+strings.ReplaceAll(msg, "\n", " | "), replay)
@@ -1068,6 +1108,25 @@ func main() {
 		w.stdin.Close()
 		w.cmd.Wait()
 	}
-	run.Rule = "random OCI DAGs (harness/dag) x K x initial destination content x fault plan (exists|fetch|push, node) x cancellation point x latency mode; per case: skeleton of copyGraph.fn on the real syncutil.Go/LimitedRegion/Tracker (trace must be a run of the Coq LTS) and the real CopyGraph/ExtendedCopyGraph with instrumented stores; distinct = distinct (graph, K, roots, event trace); non-trivial = more than 6 protocol events"
+	// coverage floors of a full generated run: a stream that produced (almost) nothing is a broken
+	// correspondence layer, not a pass
+	floorFail := ""
+	if run.Replay == "" && failedCases == 0 && len(cases) >= 1000 {
+		for _, fl := range []struct {
+			key string
+			min int
+		}{{"fault-fired", 100}, {"outcome=ok", 100}, {"ext=true", 50}, {"cancel=true", 50}, {"K=1", 50},
+			{"closed-initial-destination", 100}, {"late-push-failure-fired", 5}, {"exists-true-answered", 20},
+			{"shared-node-awaited", 20}} {
+			if run.Dist[fl.key] < fl.min {
+				floorFail += fmt.Sprintf(" %s=%d<%d", fl.key, run.Dist[fl.key], fl.min)
+			}
+		}
+	}
+	run.Rule = "random OCI DAGs (harness/dag) x K x initial destination content x fault plan (exists|fetch|push|pushlate = stored-then-failed, node) x cancellation point x latency mode; per case: skeleton of copyGraph.fn on the real syncutil.Go/LimitedRegion/Tracker (trace must be a run of the Coq LTS) and the real CopyGraph/ExtendedCopyGraph with instrumented stores; distinct = distinct (graph, K, roots, event trace); non-trivial = more than 6 protocol events"
 	run.Finish()
+	if floorFail != "" {
+		fmt.Fprintln(os.Stderr, "coverage floor not reached:"+floorFail)
+		os.Exit(3)
+	}
 }
